@@ -181,6 +181,56 @@ def e2e_segment(buf, enc, mode):
     return out
 
 
+def e2e_pieces(pieces, sends_between, enc, mode):
+    """Bytes arriving in several pieces through consecutive Input.unget_bytes() calls, with `sends_between[i]` calls of
+    send(0) after piece i (the last entry is ignored: the buffer is then drained).  Public interface only.
+    -> list of keys, the exception kind appended if send() raised"""
+    import os
+    r, w = os.pipe()
+    out = []
+    try:
+        inp = cinput.Input(in_stream=_FdStream(r), keynames=MODES[mode], paste_threshold=None, sigint_event=False)
+        with forced_encoding(enc):
+            for i, p in enumerate(pieces):
+                inp.unget_bytes(bytes(p))
+                if i + 1 < len(pieces):
+                    for _ in range(sends_between[i]):
+                        e = inp.send(0)
+                        if e is not None:
+                            out.append(e)
+            for _ in range(sum(len(p) for p in pieces) + 2):
+                e = inp.send(0)
+                if e is None:
+                    break
+                out.append(e)
+    except Exception as e:  # noqa: BLE001
+        out.append(exc_kind(e))
+    finally:
+        os.close(r)
+        os.close(w)
+    return out
+
+
+def reference_pieces(pieces, sends_between, enc, mode):
+    """what the property says about the same schedule: the pending bytes are the pieces IN ARRIVAL ORDER, every send()
+    is one find_key on them (the transcribed loop over the real get_key); nothing lost, duplicated or reordered"""
+    out, buf = [], b""
+    try:
+        for i, p in enumerate(pieces):
+            buf += bytes(p)
+            if i + 1 < len(pieces):
+                for _ in range(sends_between[i]):
+                    if buf:
+                        k, c, buf = find_key(buf, enc, mode)
+                        out.append(k)
+        while buf:
+            k, c, buf = find_key(buf, enc, mode)
+            out.append(k)
+    except FindFailure as f:
+        out.append(exc_kind(f.exc))
+    return out
+
+
 class _FdStream:
     def __init__(self, fd):
         self.fd = fd
